@@ -383,7 +383,7 @@ def r_iter_views(ctx, db, est, ln, consts=None):
         a, ea, ba, rng, bn = hist_state(m, est, "self")
         for b in ba:
             (s, _), = b.terms.items()
-            m.ienv.declare(s, 1, 2**30)
+            m.ienv.declare(s, 0, 2**30)   # empty bins and the empty histogram (total 0: 0/0) included
         ref = VRef(a, (), False)
 
         def thunk():
@@ -454,6 +454,35 @@ def r_iter_views(ctx, db, est, ln, consts=None):
                    "variance(i) is computed by exactly the same arithmetic as the i-th value of variances()" if not bad
                    else "%s is not computed by the same arithmetic as variances() (agreement only up to rounding): %s vs %s" % (
                        bad[0], show_val(dict((l, a) for l, a, b in pairs)[bad[0]])[:120], show_val(dict((l, b) for l, a, b in pairs)[bad[0]])[:120]))
+
+
+def r_hist_clone(ctx, db, est, ln, consts=None):
+    """histories include clone: clone() is an exact copy; a hand-written clone_from as well"""
+    CL = "core::clone::Clone"
+    cp = est.m("clone", CL)
+    if cp is None or cp not in db.fns:
+        ctx.ob("R-IDENT", "clone-exact:LEN=%d" % ln, est.path, "-", False, "no Clone impl found for the histogram", inc=True)
+        return
+
+    def setup(m):
+        a, ea, ba, rng, bn = hist_state(m, est, "src", strict=False)
+        want = leaf_map(deep(a.v))
+
+        def thunk():
+            r = call(m, cp, [VRef(a, (), False)])
+            return leaf_map(r), want, leaf_map(a.v)
+        return thunk, {}
+    paths, stats = explore(db, setup, Config(release=True, finite=False, consts=consts or {}), 200)
+    ctx.count_run(Run(cp, paths, stats, "clone"))
+    for p in paths:
+        if p.status == "return":
+            got, want, after = p.ret
+            bad = R.exact_state_equal(p, got, want) or R.exact_state_equal(p, after, want)
+            ctx.ob("R-IDENT", "clone-exact:LEN=%d" % ln, cp, R.fn_site(db, cp), not bad,
+                   "clone() copies edges and counts exactly" if not bad else "clone() changes %s" % (bad[:3],))
+        elif not (p.status == "panic" and is_debug_only(p.info.get("span") or {})):
+            ctx.ob("R-IDENT", "clone-exact:LEN=%d" % ln, cp, R.fn_site(db, cp), False, "clone: %s" % p.status, inc=p.status == "inconclusive")
+    R.r_clone_from_exact(ctx, db, est, lambda m, nm: hist_state(m, est, nm, strict=False)[0], tag=":LEN=%d" % ln)
 
 
 def r_iter_overrides(ctx, db, est, ln, consts=None):
